@@ -225,10 +225,22 @@ def expected_of(case):
     if e[0] == "vec":
         return "vec", [terms.ev(c) for c in e[1]], False
     if e[0] == "bool":
+        if e[1] in ("tieT", "tieF"):
+            return "bool", "either", True      # the documented boundary answer: binding only where the arithmetic is exact (run_case)
         return "bool", e[1], e[1] == "either"
     if e[0] == "partial":
         return "partial", (e[1], [terms.ev(c) for c in e[2]]), False
     raise ValueError(e)
+
+
+def _dyadic(t):
+    d = t[2]
+    return d & (d - 1) == 0 and abs(t[1]) < 2 ** 20 and d <= 2 ** 10
+
+
+def exact_tie(case):
+    """Operands and tolerance are dyadic rationals small enough for float64 (and 60-digit) arithmetic on them to be exact."""
+    return all(_dyadic(t) for t in case["a"]) and all(_dyadic(t) for t in case["p"] if isinstance(t, list) and len(t) == 3 and t[0] == "q")
 
 
 def result_kind(op):
@@ -346,7 +358,7 @@ def run_rawtau(case, classes, number, tier, mode, tol):
                 compared += 1
                 if bool(raw) != (exp == "T"):
                     records.append({"kind": blame, "sig": [sa, None], "got": bool(raw), "want": exp == "T"})
-            continue
+            continue      # boundaries through tau storage involve a square root: decided by rounding
         val = to_mpf(raw)
         if mpmath.isnan(val) or (op in ("t", "t2") and val < 0):
             records.append({"kind": "range", "sig": [sa, None], "got": mpmath.nstr(val, 30),
@@ -446,6 +458,14 @@ def run_case(case, classes, number, tier, mode, tol):
                 want = exp == "T"
                 if val != want:
                     records.append({"kind": blame, "sig": [sa, sb], "got": val, "want": want})
+            elif case["exp"][1] == "tieF" and is_canon and exact_tie(case):
+                # the boundary of is_timelike / is_spacelike (documented as strict inequalities) in all-Cartesian storage
+                # with exactly representable operands and tolerance: the arithmetic is exact, so the strict side is
+                # binding.  (is_lightlike on its boundary - "tieT" - is not judged: the property does not say whether
+                # the boundary belongs to it, and the code's comparison is strict there too.)
+                compared += 1
+                if val is not False and val != False:
+                    records.append({"kind": blame, "sig": [sa, sb], "got": val, "want": False, "tag": "boundary"})
             continue
         if rk == "num":
             compared += 1
@@ -640,7 +660,7 @@ def record_trace(cases, seed=0, per_case=1):
             got = ["inexact"]
             if rk == "bool":
                 rounding_decided = op in ("equal", "not_equal") and case["a"] == case["b"] and sa != sb
-                if case["exp"][1] != "either" and not rounding_decided:
+                if case["exp"][1] not in ("either", "tieT", "tieF") and not rounding_decided:
                     got = ["bool", "T" if bool(raw) else "F"]
             elif rk == "num":
                 s = snap(to_mpf(raw))
